@@ -662,6 +662,26 @@ func (p *nriPlugin) RemoveContainer(ctx context.Context, pod *api.PodSandbox, co
 	b := metrics.Block()
 	defer b.Done()
 
+	// A container can be removed without ever having been stopped (for instance
+	// one that was created but never started). Release what it still holds.
+	if c, ok := m.cache.LookupContainer(container.Id); ok {
+		switch c.GetState() {
+		case cache.ContainerStateCreated, cache.ContainerStateRunning:
+			p.unmapContainer(c)
+			if err := m.policy.ReleaseResources(c); err != nil {
+				nri.Error("%s: failed to release resources of %s: %v", event, c.PrettyName(), err)
+			}
+			c.UpdateState(cache.ContainerStateExited)
+			m.updateTopologyZones()
+			// this request has no reply to carry updates of other containers
+			if updates := p.getPendingUpdates(nil); len(updates) > 0 {
+				if _, err := p.stub.UpdateContainers(updates); err != nil {
+					nri.Warn("%s: failed to update containers affected by the release: %v", event, err)
+				}
+			}
+		}
+	}
+
 	m.cache.DeleteContainer(container.Id)
 	return nil
 }
